@@ -11,7 +11,7 @@ Definition head_ok (p : ascii -> bool) (s : str) : Prop := match s with c :: _ =
 Definition follows (t : token) (s : str) : Prop :=
   match tk_typ t with
   | TShortOpt | TOptSeq => head_ok (fun c => isLetter c || Ascii.eqb c c_dash) s
-  | TDblDash => match s with [] => True | c :: _ => Ascii.eqb c c_space = true end
+  | TDblDash => match s with [] => True | c :: _ => dd_end c = true end
   | TLongOpt => head_ok (fun c => isOkLongOpt c false) s
   | TArg | TOptions => head_ok isOkInArg s
   | _ => True
@@ -138,8 +138,9 @@ Proof.
       change (Ascii.eqb c_dash "("%char) with false. change (Ascii.eqb c_dash ")"%char) with false.
       change (Ascii.eqb c_dash "|"%char) with false. change (Ascii.eqb c_dash "."%char) with false.
       rewrite Ascii.eqb_refl. cbv iota. change (isLetter c_dash) with false. cbv iota. rewrite ?Ascii.eqb_refl. cbv iota.
-      assert (Hsp : Ascii.eqb e c_space = false).
-      { destruct (Ascii.eqb e c_space) eqn:E; [|reflexivity]. apply eqb_char in E. subst e. discriminate. }
+      assert (Hsp : dd_end e = false).
+      { destruct (dd_end e) eqn:E; [|reflexivity]. exfalso. unfold dd_end in E.
+        repeat (apply orb_true_iff in E as [E|E]); apply eqb_char in E; subst e; discriminate. }
       rewrite Hsp, He. rewrite (span_exact (fun x => isOkLongOpt x false) name s Hname Hf).
       rewrite IH; [now rewrite rev_cons_app|]. cbn [length List.app] in Hfuel |- *. rewrite app_length in Hfuel. lia.
     + (* -xyz *)
@@ -253,13 +254,13 @@ Proof.
           unfold tk. destruct letters; exact F. }
       destruct r3 as [|d r4]; [apply Hnd; exact I|]. destruct (Ascii.eqb d c_dash) eqn:Ed; [discriminate|]. apply Hnd. reflexivity.
     - destruct (Ascii.eqb o c_dash) eqn:Hd; [|discriminate]. apply eqb_char in Hd. subst o.
-      assert (Hdd : forall r, (match r with [] => True | c :: _ => Ascii.eqb c c_space = true end) ->
+      assert (Hdd : forall r, (match r with [] => True | c :: _ => dd_end c = true end) ->
                 lex f (pos + 2) r (mkTok TDblDash s_dd pos :: acc) = LexOk ts ->
                 exists ts', ts = rev acc ++ ts' /\ WTiles pos (c_dash :: c_dash :: r) ts').
       { intros r Hr Hlx. change (c_dash :: c_dash :: r) with (s_dd ++ r).
         apply (Hpush (mkTok TDblDash s_dd pos) s_dd r (pos + 2)); auto; exact I. }
       destruct r2 as [|e r3]; [apply Hdd; exact I|].
-      destruct (Ascii.eqb e c_space) eqn:He; [apply Hdd; exact He|].
+      destruct (dd_end e) eqn:He; [apply Hdd; exact He|].
       destruct (isOkLongOpt e true) eqn:Hok; [|discriminate].
       destruct (span (fun x => isOkLongOpt x false) r3) as [name r4] eqn:Hsp. destruct (span_spec _ _ _ _ Hsp) as (-> & Hall & Hstop).
       intros Hlx. change (c_dash :: c_dash :: e :: name ++ r4) with ((c_dash :: c_dash :: e :: name) ++ r4).
